@@ -129,8 +129,11 @@ def excel_rows(source_path, sheet=1):
     assert sheet >= 1, "sheet=%r" % sheet
 
     location = errors.Location(source_path, has_cell=True)
+    # Read the file here so that only errors while accessing it are reported as environment errors.
+    with open(source_path, "rb") as excel_file:
+        excel_data = excel_file.read()
     try:
-        with xlrd.open_workbook(source_path) as book:
+        with xlrd.open_workbook(source_path, file_contents=excel_data) as book:
             if book.nsheets < sheet:
                 raise errors.DataFormatError(
                     "Excel file must contain at least %d sheet(s) instead of just %d" % (sheet, book.nsheets), location
@@ -145,8 +148,6 @@ def excel_rows(source_path, sheet=1):
                 yield row
                 location.advance_line()
     except errors.DataFormatError:
-        raise
-    except EnvironmentError:
         raise
     except UnicodeError as error:
         raise errors.DataFormatError("cannot decode Excel data: %s" % error, location)
